@@ -878,6 +878,41 @@ example : ReachAtMost 1 SE.Buf.discBuf ∧ SE.Buf.CoversDisc 1 SE.Buf.discBuf :=
 example : geosBuffered (.point 5 2000) = true ∧ SE.Buf.valid (.point 5 2000) = true ∧
     (Geom.point 5 2000).bounds = some ⟨5, 2000, 5, 2000⟩ := by decide +kernel
 
+/-- non-vacuity of `C06_pipeline_extent_within` / `C06_pipeline_extent_ideal`: the one-point set `{(5, 2000)}` with
+    the exact unit buffer, time buffer 3/2 s, frequency buffer 100 Hz: the result of the pipeline has the time extent
+    `[7/2, 13/2]`, `13/2` bounds its times (`IsMaxTime`), and the conclusion holds of it -/
+example : SE.Buf.IsMaxTime SE.Buf.discBuf (fun p => p = ((5 : Rat), (2000 : Rat))) (3/2) 100 (13/2) ∧
+    IsTimeExtent (SE.Buf.pipelineSet SE.Buf.discBuf (fun p => p = ((5 : Rat), (2000 : Rat))) (3/2) 100 1 (13/2))
+      (7/2) (13/2) ∧
+    extentWithin 1 1 0 5 5 (3/2) (7/2) (13/2) = true := by
+  have f1 : SE.Buf.factor (3/2) = 2/3 := by
+    rw [SE.Proofs.Lemmas.Buffer.factor_of_pos _ (by norm_num)]; norm_num
+  have f2 : SE.Buf.factor 100 = 1/100 := SE.Proofs.Lemmas.Buffer.factor_of_pos _ (by norm_num)
+  have hmax : SE.Buf.IsMaxTime SE.Buf.discBuf (fun p => p = ((5 : Rat), (2000 : Rat))) (3/2) 100 (13/2) := by
+    intro q hq
+    obtain ⟨c', ⟨c, hc, rfl⟩, hq⟩ := hq
+    subst hc
+    have h := SE.Proofs.Lemmas.Buffer.coord_le_of_dist2 _ _ hq
+    simp only [SE.Buf.scalePt, SE.Buf.unscalePt, f1] at h ⊢
+    rw [div_le_iff₀ (by norm_num)]
+    linarith
+  have hM : (2000 : Rat) ≤ MAXF := by decide +kernel
+  have key := SE.Proofs.C11.C11_pipeline_exact_ideal (fun p => p = ((5 : Rat), (2000 : Rat))) (3/2) 100 1 (13/2)
+    (by norm_num) hmax
+  refine ⟨hmax, ⟨?_, ⟨((7/2 : Rat), (2000 : Rat)), ?_, rfl⟩, ⟨((13/2 : Rat), (2000 : Rat)), ?_, rfl⟩⟩, by decide +kernel⟩
+  · intro p hp
+    obtain ⟨_, c, rfl, hw⟩ := (key p).mp hp
+    simp only [SE.Buf.withinBuffers, f1, f2] at hw
+    constructor
+    · by_contra hc
+      have hc := not_le.mp hc
+      nlinarith [mul_self_nonneg ((p.2 - 2000) * (1 / 100))]
+    · by_contra hc
+      have hc := not_le.mp hc
+      nlinarith [mul_self_nonneg ((p.2 - 2000) * (1 / 100))]
+  · exact (key _).mpr ⟨⟨by norm_num, by norm_num, hM⟩, _, rfl, by simp only [SE.Buf.withinBuffers, f1, f2]; norm_num⟩
+  · exact (key _).mpr ⟨⟨by norm_num, by norm_num, hM⟩, _, rfl, by simp only [SE.Buf.withinBuffers, f1, f2]; norm_num⟩
+
 -- the shoelace area (contract `AreaExact`): a 2 x 3 rectangle given as a closed ring, with a unit-square hole
 example : closedArea (.polygon [[(0, 0), (2, 0), (2, 3), (0, 3), (0, 0)]]) = some 6 := by decide +kernel
 example : closedArea (.polygon [[(0, 0), (2, 0), (2, 3), (0, 3)], [(1/2, 1), (1/2, 2), (3/2, 2), (3/2, 1), (1/2, 1)]]) = some 5 := by
